@@ -72,11 +72,12 @@ G_C06_StrictlyCheaper(cv) ==
 
 \* spot nodes replaced by a spot-capable request: feature enabled; a single node additionally needs MinS2S strictly
 \* cheaper options and the option list cut down to max(MinS2S, what minValues needs)
+S2SApplies(cv) == cv.nrepl >= 1 /\ AllSpot(cv) /\ CanLaunchSpot(cv)
+S2SFeature(cv) == cv.s2s
+S2SEnough(cv, minS2S) == Len(cv.cands) = 1 => Cardinality(CheaperOpts(cv)) >= minS2S
+S2STruncated(cv, minS2S) == Len(cv.cands) = 1 => Len(cv.opts) <= Max2(minS2S, cv.minNeed)
 G_C06_SpotToSpot(cv, minS2S) ==
-    (cv.nrepl >= 1 /\ AllSpot(cv) /\ CanLaunchSpot(cv)) =>
-        /\ cv.s2s
-        /\ Len(cv.cands) = 1 => /\ Cardinality(CheaperOpts(cv)) >= minS2S
-                                /\ Len(cv.opts) <= Max2(minS2S, cv.minNeed)
+    S2SApplies(cv) => (S2SFeature(cv) /\ S2SEnough(cv, minS2S) /\ S2STruncated(cv, minS2S))
 SigSpotToSpot(cv, minS2S) ==
     IF ~cv.s2s THEN "feature-disabled"
     ELSE IF Cardinality(CheaperOpts(cv)) < minS2S THEN "too-few-cheaper-options" ELSE "not-truncated"
